@@ -20,7 +20,8 @@ RULE = (
     "state / time triggers: (b1) 26 specification lists x the wall clock set to each derived evaluation time -> the function "
     "runs iff the matcher says so (for a time trigger the evaluation time is trigger_time); (b2) every sequence of 4 occurrences "
     "with gaps {hold_off-1, hold_off+1} s x every pass/fail pattern of the @state_active expression (over the watched entity "
-    "with .old, an unwatched gate entity and an undefined entity), with a guard-only entity change before every occurrence (must "
+    "with .old and .old.<attribute>, an unwatched gate entity, an undefined entity, and expressions whose false value is 0, '' or "
+    "None) x 4 time windows (always, no arguments, a negated window rejecting the second occurrence, a window rejecting the first), with a guard-only entity change before every occurrence (must "
     "not start a run) and a direct call of the function (must ignore the guards): a run exists iff state_active is truthy on the "
     "triggering values and at least hold_off seconds have passed since the last ACCEPTED occurrence. distinct = distinct (list or "
     "sequence, time, verdict); non-trivial = the verdict is 'active' / at least one occurrence is rejected"
@@ -226,6 +227,7 @@ B1_LISTS = [
 ]
 KINDS = ["event", "state", "time"]
 ORDERS = ["trigger_first", "guards_first"]
+ORDERS3 = ["trigger_first", "guards_first", "split"]
 
 
 def b1_source(kind, order, specs, t_eval):
@@ -276,17 +278,27 @@ B2_EXPRS = {
     # name -> (expression, needs state trigger)
     "gate": ("pyscript.gate == '1'", False),
     "gate_old": ("pyscript.gate == '1' and pyscript.v.old == '0'", True),
+    "gate_old_attr": ("pyscript.gate == '1' and pyscript.v.old.level == 3 and pyscript.v.level == 4", True),
     "gate_undef": ("pyscript.gate == '1' and pyscript.nosuch is None and pyscript.v.old is None", False),
+    # falsy values other than False reject as well ("If it evaluates to False (or zero), the trigger is ignored")
+    "gate_int": ("int(pyscript.gate)", False),
+    "gate_str": ("str(pyscript.gate).replace('0', '')", False),
+    "gate_none": ("[1] if pyscript.gate == '1' else None", False),
+}
+# time windows for the hold_off sequences: the world starts at 12:00:00 local, occurrences at 0, 9|11, 18|20|22, 27..33 s
+B2_WINDOWS = {
+    "always": (["range(0:00, 23:59:59)"], lambda t: True),
+    "noargs": ([], lambda t: True),
+    "not_mid": (["range(0:00, 23:59:59)", "not range(12:00:05, 12:00:15)"], lambda t: not 5 <= t <= 15),
+    "late": (["range(12:00:05, 13:00)"], lambda t: t >= 5),
 }
 
 
-def b2_source(kind, order, expr, with_time_active):
+def b2_source(kind, order, expr, window):
     trig = {"event": "@event_trigger('ev')", "state": "@state_trigger(\"pyscript.v == '1'\")"}[kind]
     guards = [f"@state_active({expr!r})"]
-    if with_time_active:
-        guards.append(f"@time_active('range(0:00, 23:59:59)', hold_off={HOLD})")
-    else:
-        guards.append(f"@time_active(hold_off={HOLD})")
+    wargs = "".join(repr(a) + ", " for a in B2_WINDOWS[window][0])
+    guards.append(f"@time_active({wargs}hold_off={HOLD})")
     if order == "trigger_first":
         decos = [trig] + guards
     elif order == "guards_first":
@@ -297,16 +309,16 @@ def b2_source(kind, order, expr, with_time_active):
             "@service\ndef direct():\n    f(trigger_type='direct')\n")
 
 
-def run_b2(kind, order, exprname, with_ta, gaps, verdicts, direct_at, legacy):
+def run_b2(kind, order, exprname, window, gaps, verdicts, direct_at, legacy):
     from mc.world import World
 
     expr = B2_EXPRS[exprname][0]
     w = World({"hello.py": "x = 1\n"}, legacy=legacy)
     try:
-        w.hass.states.async_set("pyscript.v", "0")
+        w.hass.states.async_set("pyscript.v", "0", {"level": 3})
         w.hass.states.async_set("pyscript.gate", "0")
         w.settle()
-        w.write("hello.py", b2_source(kind, order, expr, with_ta))
+        w.write("hello.py", b2_source(kind, order, expr, window))
         w.reload()
         w.settle()
         got = []
@@ -332,10 +344,10 @@ def run_b2(kind, order, exprname, with_ta, gaps, verdicts, direct_at, legacy):
                 w.fire("ev", {})
                 w.settle()
             else:
-                w.hass.states.async_set("pyscript.v", "1")
+                w.hass.states.async_set("pyscript.v", "1", {"level": 4})
                 w.settle()
                 n_mid = len(runs)
-                w.hass.states.async_set("pyscript.v", "0")
+                w.hass.states.async_set("pyscript.v", "0", {"level": 3})
                 w.settle()
                 if len(runs) != n_mid:
                     stray.append(("non-qualifying-change-started-a-run", i))
@@ -347,14 +359,14 @@ def run_b2(kind, order, exprname, with_ta, gaps, verdicts, direct_at, legacy):
         w.close()
 
 
-def b2_model(gaps, verdicts):
+def b2_model(gaps, verdicts, window="always"):
     out = []
     last = None
     t = 0.0
     for i, v in enumerate(verdicts):
         if i:
             t += gaps[i - 1]
-        ok = bool(v) and (last is None or t - last >= HOLD)
+        ok = bool(v) and B2_WINDOWS[window][1](t) and (last is None or t - last >= HOLD)
         out.append(1 if ok else 0)
         if ok:
             last = t
@@ -390,15 +402,17 @@ def b2_cases(tier):
             for exprname, (expr, needs_state) in B2_EXPRS.items():
                 if needs_state != (kind == "state") and exprname != "gate":
                     continue
-                for with_ta in (True, False):
+                for wi, window in enumerate(B2_WINDOWS):
                     for legacy in (False, True):
                         for gaps in itertools.product((HOLD - 1, HOLD + 1), repeat=3):
                             for verdicts in itertools.product((1, 0), repeat=4):
                                 idx = sum(g > HOLD for g in gaps) + sum(verdicts)
-                                if tier == "quick" and (with_ta != (order == "trigger_first") or (idx + legacy) % 2):
-                                    continue
+                                if tier == "quick":
+                                    # every (expression, order, window) combination with a quarter of the sequences each
+                                    if (idx + 2 * legacy + wi + ORDERS3.index(order)) % 4 or (exprname not in ("gate", "gate_old") and window not in ("always", "not_mid")):
+                                        continue
                                 direct_at = (idx % 5) if idx % 5 < 4 else None
-                                out.append(("b2", kind, order, exprname, with_ta, gaps, verdicts, direct_at, legacy))
+                                out.append(("b2", kind, order, exprname, window, gaps, verdicts, direct_at, legacy))
     return out
 
 
@@ -453,10 +467,10 @@ def run_shard(shard):
     for i, c in enumerate(b2_cases(tier)):
         if i % n != k:
             continue
-        _, kind, order, exprname, with_ta, gaps, verdicts, direct_at, legacy = c
-        got, stray, times, errors = run_b2(kind, order, exprname, with_ta, gaps, verdicts, direct_at, legacy)
-        want = b2_model(gaps, verdicts)
-        case = {"part": "b2", "case": [kind, order, exprname, with_ta, list(gaps), list(verdicts), direct_at, legacy]}
+        _, kind, order, exprname, window, gaps, verdicts, direct_at, legacy = c
+        got, stray, times, errors = run_b2(kind, order, exprname, window, gaps, verdicts, direct_at, legacy)
+        want = b2_model(gaps, verdicts, window)
+        case = {"part": "b2", "case": [kind, order, exprname, window, list(gaps), list(verdicts), direct_at, legacy]}
         res.case((c[1:], tuple(got)), nontrivial=0 in want, transitions=len(verdicts) * 2, config=("legacy" if legacy else "new") + "/b2/" + kind, sample=case)
         sub = "legacy" if legacy else "new"
         if errors:
@@ -467,7 +481,7 @@ def run_shard(shard):
             # which way: an occurrence ran inside the hold-off of an accepted one, or was ignored because of a rejected one
             first = [i for i, (g, x) in enumerate(zip(got, want)) if g != x][0]
             kind_f = "ran-when-it-should-not" if got[first] > want[first] else "ignored-after-a-rejected-occurrence"
-            res.fail(f"b2|{sub}|{kind_f}|{order}", case, expected=want, observed=got)
+            res.fail(f"b2|{sub}|{kind_f}|{order}|{exprname}|{window}", case, expected=want, observed=got)
     return res
 
 
@@ -482,7 +496,7 @@ def replay(case):
         c = case["case"]
         fail, want, runs = judge_b1(tuple(c))
         return {"ok": fail is None, "failure": repr(fail), "expected_active": want, "runs": repr(runs), "specs": case["specs"]}
-    kind, order, exprname, with_ta, gaps, verdicts, direct_at, legacy = case["case"]
-    got, stray, times, errors = run_b2(kind, order, exprname, with_ta, tuple(gaps), tuple(verdicts), direct_at, legacy)
-    want = b2_model(tuple(gaps), tuple(verdicts))
+    kind, order, exprname, window, gaps, verdicts, direct_at, legacy = case["case"]
+    got, stray, times, errors = run_b2(kind, order, exprname, window, tuple(gaps), tuple(verdicts), direct_at, legacy)
+    want = b2_model(tuple(gaps), tuple(verdicts), window)
     return {"ok": got == want and not stray and not errors, "expected": want, "observed": got, "stray": repr(stray), "errors": errors}
